@@ -20,6 +20,18 @@ def all_cases(tier):
                 elif n >= 2 and ts in (0.2, 0.5):
                     for seed in (1, 2, 3):
                         out.append({"kind": "split", "n": n, "test": ts, "val": vs, "shuffle": "seed%d" % seed})
+    # more split fractions at sizes where fraction * n is an integer or close to one in binary floating point; only pairs whose
+    # exact-rational floor and double-precision floor agree (the "floor rule" is then unambiguous) are enumerated
+    from fractions import Fraction
+    decs = ["0.05", "0.15", "0.3", "0.35", "0.4", "0.45", "0.55", "0.6", "0.65", "0.7", "0.8", "0.85", "0.9", "0.95"]
+    for n in (7, 9, 10, 11, 20, 30, 40, 50, 100, 200):
+        for d in decs:
+            ts = float(d)
+            if int(math.floor(ts * n)) != math.floor(Fraction(d) * n): continue
+            for dv in (None, "0.3", "0.7"):
+                rest = n - int(math.floor(ts * n))
+                if dv is not None and int(math.floor(float(dv) * rest)) != math.floor(Fraction(dv) * rest): continue
+                out.append({"kind": "split", "n": n, "test": ts, "val": None if dv is None else float(dv), "shuffle": None})
     for n in range(0, 11):
         for b in range(1, 7):
             for tr in ("none", "default", "identity", "scale", "scale_positional"):
